@@ -117,6 +117,17 @@ type fileRun struct {
 var structEdits = []string{"cache-null", "cache-empty", "cache-short", "cache-long", "shard-null", "templates-null", "shardno-wrong", "shardno-string",
 	"shardno-negative", "shardno-huge", "cache-object", "template-null", "fieldspecs-null", "fieldcount-huge", "key-not-number", "dup-keys", "deep-nesting", "top-array", "extra-fields"}
 
+// firstKey returns the smallest key (no dependence on map iteration order).
+func firstKey(m map[string]interface{}) string {
+	best := ""
+	for k := range m {
+		if best == "" || k < best {
+			best = k
+		}
+	}
+	return best
+}
+
 func applyStructEdit(valid []byte, edit string, r *rand.Rand) []byte {
 	var doc map[string]interface{}
 	if json.Unmarshal(valid, &doc) != nil {
@@ -167,44 +178,37 @@ func applyStructEdit(valid []byte, edit string, r *rand.Rand) []byte {
 	case "template-null":
 		if sh, _ := pickShard(); sh != nil {
 			t := sh["Templates"].(map[string]interface{})
-			for k := range t {
+			if k := firstKey(t); k != "" {
 				t[k] = nil
-				break
 			}
 		}
 	case "fieldspecs-null":
 		if sh, _ := pickShard(); sh != nil {
 			t := sh["Templates"].(map[string]interface{})
-			for _, v := range t {
-				if e, ok := v.(map[string]interface{}); ok {
-					if tp, ok := e["Template"].(map[string]interface{}); ok {
-						tp["FieldSpecifiers"] = nil
-						tp["ScopeFieldSpecifiers"] = nil
-					}
+			if e, ok := t[firstKey(t)].(map[string]interface{}); ok {
+				if tp, ok := e["Template"].(map[string]interface{}); ok {
+					tp["FieldSpecifiers"] = nil
+					tp["ScopeFieldSpecifiers"] = nil
 				}
-				break
 			}
 		}
 	case "fieldcount-huge":
 		if sh, _ := pickShard(); sh != nil {
 			t := sh["Templates"].(map[string]interface{})
-			for _, v := range t {
-				if e, ok := v.(map[string]interface{}); ok {
-					if tp, ok := e["Template"].(map[string]interface{}); ok {
-						tp["FieldCount"] = 65535
-						tp["ScopeFieldCount"] = 65535
-					}
+			if e, ok := t[firstKey(t)].(map[string]interface{}); ok {
+				if tp, ok := e["Template"].(map[string]interface{}); ok {
+					tp["FieldCount"] = 65535
+					tp["ScopeFieldCount"] = 65535
 				}
-				break
 			}
 		}
 	case "key-not-number":
 		if sh, _ := pickShard(); sh != nil {
 			t := sh["Templates"].(map[string]interface{})
-			for k, v := range t {
+			if k := firstKey(t); k != "" {
+				v := t[k]
 				delete(t, k)
 				t["not-a-number"] = v
-				break
 			}
 		}
 	case "dup-keys":
